@@ -129,7 +129,7 @@ def obligations(tier: str):
         obs.append(Ob(h, cfg, name=name, timeout=timeout * (8 if T else 1), path_timeout=60))
 
     deltas = (0, 1, 2, 3) if T else (0, 1, 2)
-    for fxn in ("f1", "f3", "f4", "f0", "f9", "f10", "f13") + (("f3b",) if T else ()):
+    for fxn in ("f1", "f3", "f4", "f0", "f9", "f10", "f13", "f14") + (("f3b",) if T else ()):
         for dec in ("grow", "full", "pi"):
             for d in deltas:
                 if fxn in ("f1", "f4") and d >= 2 and dec != "grow" and not T:
